@@ -86,6 +86,11 @@ func VerifC19ServerGates() {
 	vIntercept("(*github.com/spf13/viper.Viper).IsSet", func(v *viper.Viper, key string) bool { return answer(isSet, "isset.", key) })
 	vIntercept("(*github.com/spf13/viper.Viper).GetBool", func(v *viper.Viper, key string) bool { return answer(val, "value.", key) })
 	vIntercept("(*github.com/spf13/viper.Viper).GetInt", func(v *viper.Viper, key string) int { return 3600 })
+	// the narrower questions viper can also be asked have answers of their
+	// own: a key may be set (environment) without being in the config file
+	inConfig := map[string]bool{}
+	vIntercept("(*github.com/spf13/viper.Viper).InConfig", func(v *viper.Viper, key string) bool { return answer(inConfig, "inconfig.", key) })
+	vIntercept("(*github.com/spf13/viper.Viper).Get", func(v *viper.Viper, key string) interface{} { return answer(val, "value.", key) })
 
 	vIntercept("github.com/nats-io/nuid.Next", func() string { return "nuid-1" })
 	cfg := NewDefaultConfig()
@@ -96,8 +101,10 @@ func VerifC19ServerGates() {
 		vCover("default")
 	case 1: // config file or LIFTBRIDGE_TELEMETRY_ENABLED, as viper resolves them
 		parseTelemetryConfig(cfg, nil)
-		if isSet[configTelemetryEnabled] {
-			expect = val[configTelemetryEnabled]
+		// the documented switch: telemetry.enabled as viper resolves it from
+		// the config file or LIFTBRIDGE_TELEMETRY.ENABLED (IsSet/GetBool)
+		if answer(isSet, "isset.", configTelemetryEnabled) {
+			expect = answer(val, "value.", configTelemetryEnabled)
 		}
 		vCover("config-file-or-env")
 	case 2:
